@@ -88,6 +88,8 @@ def _run(spec, prop, tier, seed, replay, wd):
         ok = row is not None and row[1] != "violated"
         return {"violations": [] if ok else [replay], "level": "model_checking", "coverage": cov, "assumptions": ASSUME}
 
+    import shutil
+    shutil.rmtree(os.path.join(E.VERIF, "replays", prop), ignore_errors=True)
     # ---- A1 + A2 -------------------------------------------------------
     mismatch_traces = []
     next_tid = 1000000
